@@ -746,7 +746,16 @@ fn gen_keepalive(repo: &Path, g: &mut Gen) -> R<()> {
     let rq = Src::load(repo, rq_rel)?;
     let listen = method_body(&rr, "listen", 0).ok_or_else(|| Shape(format!("{rr_rel}: fn listen not found")))?;
     let request = method_body(&rr, "request", 0).ok_or_else(|| Shape(format!("{rr_rel}: fn request not found")))?;
-    let listen_per = budget_inside_loop(listen).ok_or_else(|| Shape(format!("{rr_rel}: listen(): no backoff iterator found")))?;
+    // listen(): either the iterator is created inside the loop (every pass gets a fresh one), or it is created before
+    // the loop and re-created in the arm for a stream that was cut off, while the arm for a refused registration
+    // (another replier is bound) leaves it alone
+    let listen_let_in_loop = budget_inside_loop(listen).ok_or_else(|| Shape(format!("{rr_rel}: listen(): no backoff iterator found")))?;
+    let lt = quote::quote!(#listen).to_string();
+    let reset_arm = lt.find("_ => attempts = self . backoff_strategy . clone () . into_iter ()");
+    let bind_arm = lt.find("Err (SeliumError :: OpenStream (code , _)) if is_bind_error (code) => ()");
+    let listen_per = listen_let_in_loop || reset_arm.is_some();
+    let refusal_counts = if listen_let_in_loop { false } else if let Some(r) = reset_arm { matches!(bind_arm, Some(b) if b < r) } else { true };
+    if !lt.contains("self . try_reconnect (& mut attempts) . await ?") { return shape(rr_rel, "listen(): no `self.try_reconnect(&mut attempts).await?`"); }
     let request_per = budget_inside_loop(request).ok_or_else(|| Shape(format!("{rr_rel}: request(): no backoff iterator found")))?;
     // pub/sub wrapper: the iterator is created when the status goes from Connected to Disconnected
     let on_dis = method_body(&ps, "on_disconnect", 0).ok_or_else(|| Shape(format!("{ps_rel}: fn on_disconnect not found")))?;
@@ -769,7 +778,8 @@ fn gen_keepalive(repo: &Path, g: &mut Gen) -> R<()> {
     let bind_code = bind.contains("code == REPLIER_ALREADY_BOUND");
     if !default_false { return shape(h_rel, "is_recoverable_error: the catch-all arm is not `_ => false`"); }
     let mut s = String::new();
-    let _ = writeln!(s, "/-- {rr_rel}: is the backoff iterator of `listen()` / `request()` created inside the retry loop (per outage)? -/\ndef replierBudgetPerOutage : Bool := {listen_per}\ndef requestorBudgetPerOutage : Bool := {request_per}");
+    let _ = writeln!(s, "/-- {rr_rel}: does every outage (a stream that was serving and got cut off) get a fresh backoff iterator in `listen()` / `request()`? -/\ndef replierBudgetPerOutage : Bool := {listen_per}\ndef requestorBudgetPerOutage : Bool := {request_per}");
+    let _ = writeln!(s, "/-- {rr_rel}: does a refused registration (another replier is bound) count against the current budget in `listen()`? -/\ndef replierRefusalCountsAsAttempt : Bool := {refusal_counts}");
     let _ = writeln!(s, "/-- {ps_rel}: `on_disconnect` builds a fresh `ReconnectState` from the strategy when the connection is lost -/\ndef pubsubBudgetPerOutage : Bool := {pubsub_per}");
     let _ = writeln!(s, "/-- {rq_rel}: `on_reconnect` starts a reply reader for the new stream -/\ndef requestorRestartsReader : Bool := {restarts}");
     let _ = writeln!(s, "/-- {h_rel}: `is_recoverable_error` -/\ndef ioConnectionResetRecoverable : Bool := {}\ndef ioNotConnectedRecoverable : Bool := {}\ndef quicConnectionErrorRecoverable : Bool := {quic_conn}\ndef replierAlreadyBoundRecoverable : Bool := {}",
